@@ -790,6 +790,14 @@ func (e *Env) evalCall(ex *SExpr) Val {
 			default:
 				return Val{Typ: types.Typ[types.Int], L: []string{fmt.Sprint(idx[k])}}
 			}
+		case "strHasPrefix":
+			a, b := e.eval(args[0]), e.eval(args[1])
+			e.x.D.declareFun("str_hasprefix", "(Str Str) Bool")
+			return boolVal("(str_hasprefix " + a.L[0] + " " + b.L[0] + ")")
+		case "strTrimPrefix":
+			a, b := e.eval(args[0]), e.eval(args[1])
+			e.x.D.declareFun("str_trimprefix", "(Str Str) Str")
+			return Val{Typ: types.Typ[types.String], L: []string{"(str_trimprefix " + a.L[0] + " " + b.L[0] + ")"}}
 		case "chancap":
 			a := e.eval(args[0])
 			if a.Typ == nil {
